@@ -209,7 +209,7 @@ in order, every scalar written in **any** form
 below), enum names with or without prefix — decodes to exactly `m`. The canonical encoding is one
 of these documents, so they all produce the same message as the canonical spelling. -/
 theorem C03_variations (c : Cfg) (hs : c.env.flat = true)
-    (hA : c.protoToAny = false ∨ c.env.noAny = true) (root : String) (m : Fields) (t : PTree)
+    (hA : c.protoToAny = false ∨ c.env.noJ5Any = true) (root : String) (m : Fields) (t : PTree)
     (hok : valOk c.env c.O (.object root) (.msg m) = true ∨
       valOk c.env c.O (.oneof root) (.msg m) = true)
     (h : SpellsRoot c root m t) : decRootTree c root t = .ok m :=
@@ -218,7 +218,7 @@ theorem C03_variations (c : Cfg) (hs : c.env.flat = true)
 /-- the same for `Codec.JSONToProto` on bytes (insignificant whitespace is consumed by the JSON
 reader model `readDoc`) -/
 theorem C03_variations_bytes (c : Cfg) (hs : c.env.flat = true)
-    (hA : c.protoToAny = false ∨ c.env.noAny = true) (root : String) (m : Fields)
+    (hA : c.protoToAny = false ∨ c.env.noJ5Any = true) (root : String) (m : Fields)
     (bs : Bytes)
     (hok : valOk c.env c.O (.object root) (.msg m) = true ∨
       valOk c.env c.O (.oneof root) (.msg m) = true)
